@@ -114,6 +114,28 @@ def checkCase (j : Json) : Except String Verdict := do
   let mut v : Verdict := {}
   if (j.getObjVal? "setupError").toOption.isSome && !(getJ j "setupError").isNull then
     return v.diff 0 "setup" "ok" (getJ j "setupError") ["C01", "C13", "C14"]
+  -- overlapping revalidations for two upstreams: the model judges each request on its own (one provider, one single-flight
+  -- group per upstream — C13_skeleton_New), under the allowed groups of the upstream its Host routes to
+  let ov := getJ j "overlap"
+  if !ov.isNull then
+    let ovIn := getJ ov "in"
+    let ug := strs ovIn "userGroups"
+    let verdictOf (host : String) : Bool × String :=
+      match ups.find? (·.from' == host) with
+      | some u => (u.groups.any (ug.contains ·), u.service)
+      | none => (false, "")
+    let (okA, svcA) := verdictOf (strD ovIn "hostA")
+    let (okB, svcB) := verdictOf (strD ovIn "hostB")
+    let wantReached := ((if okA then [svcA] else []) ++ (if okB then [svcB] else [])).toArray.qsort (· < ·) |>.toList
+    v := v.br (if boolD ov "overlapped" then "overlap/overlapped" else "overlap/not-overlapped")
+    v := { v with nontrivial := true }
+    v := v.cmp 0 "overlap.status" ((if okA then 200 else 403 : Int), (if okB then 200 else 403 : Int)) (intD ov "statusA", intD ov "statusB") ["C13", "C01", "C04", "C11"]
+    v := v.cmp 0 "overlap.reached" wantReached (strs ov "reached") ["C13", "C01", "C04", "C11"]
+    for (ok, svc, h) in [(okA, svcA, strD ovIn "hostA"), (okB, svcB, strD ovIn "hostB")] do
+      if !ok && (strs ov "reached").contains svc then
+        for p in ["C13", "C01", "C11"] do
+          v := v.mon p "judged_under_own_upstream_policy" 0 s!"{h}: user in {ug} reached {svc} while another upstream's revalidation was open"
+    return v
   let steps := ((jarr j "steps").toOption.getD #[]).toList
   let table : List RouteEntry := ups.map fun u => { isRegexp := u.rewrite, host := u.from' }
   let mut idx := 0
@@ -286,6 +308,14 @@ def checkCase (j : Json) : Except String Verdict := do
                 let g := s.grace.getD 0
                 if !(g + ttlG > 0) then v := v.mon "C05" "grace_outside_window" idx
               | some .confirmed => if !((strs out "calls").contains "validate") then v := v.mon "C04" "served_without_validate_call" idx
+            -- C03: the identity the upstream is told is the *current* session's — as re-sealed by this very request when a
+            -- check ran, as presented otherwise (never a superseded copy)
+            let cur : Sess := (iwrites.toList.reverse.findSome? fun w => sessOf (getJ w "save")).getD s
+            let want := idJson (some { user := cur.user, email := cur.email, groups := cur.groups, accessToken := none })
+            let gotId := getJ iup "identity"
+            for k in ["X-Forwarded-Email", "X-Forwarded-Groups", "X-Forwarded-User"] do
+              if (getJ gotId k).compress != (getJ want k).compress then
+                v := v.mon "C03" "identity_is_current_session" idx s!"{k}: upstream got {(getJ gotId k).compress}, session says {(getJ want k).compress}"
             -- C11: the user satisfies at least one allow rule (group rule: per the session's confirmed groups)
             let grp : GroupAns := if u.groups == ["*"] || u.groups.any (s.groups.contains ·) then .member else .notMember
             if !specAdmit lower u.rules s.email grp && !(u.rules.groups != [] && s.refresh ≥ 0 && s.valid ≥ 0) then
